@@ -91,7 +91,6 @@ class Closure:
     mod: object
 
 
-@dataclass
 class LoggerModel(ModelObject):
     """a logging.Logger: emitting a message has no effect the contracts speak of; what the logging configuration is
     (level, handlers) is not known, so queries about it return arbitrary values"""
@@ -114,6 +113,7 @@ class LoggerModel(ModelObject):
 LOGGER = LoggerModel()
 
 
+@dataclass
 class LocalFunc:
     """a function defined inside a function (closes over the enclosing environment as it is at the call)"""
 
@@ -1362,6 +1362,21 @@ class Interp:
         if isinstance(obj, set):
             if name in ("union", "add"):
                 return Builtin("set." + name, _set_method(obj, name))
+        from .numpy_model import DType as _DT
+
+        if isinstance(obj, _DT) and name in ("kind", "name", "itemsize"):
+            nm = str(obj.name)
+            if name == "kind":  # numpy's one-letter kind code
+                if nm.startswith(("M8", "datetime64")):
+                    return "M"
+                if nm.startswith(("m8", "timedelta64")):
+                    return "m"
+                if nm.startswith(("u", "uint")):
+                    return "u"
+                return {"real": "f", "int": "i", "bool": "b"}.get(obj.kind, "O")
+            if name == "name":
+                return nm
+            raise Unsupported("dtype.itemsize")
         if isinstance(obj, slice) and name in ("start", "stop", "step"):
             return getattr(obj, name)
         if isinstance(obj, str):
